@@ -44,6 +44,7 @@ ENUMS = {
     "MacroblockType": {"Inter": "Inter", "InterQ": "InterQ", "Inter4V": "Inter4V", "Intra": "Intra", "IntraQ": "IntraQ", "Inter4Vq": "Inter4Vq"},
     "BlockPatternEntry": {"Stuffing": "BpStuffing", "Invalid": "BpInvalid", "Valid": "BpValid"},
     "Macroblock": {"Uncoded": "MbUncoded", "Stuffing": "MbStuffing", "Coded": "MbCoded"},
+    "ShortTCoefficient": {"EscapeToLong": "EscapeToLong", "Run": "Run"},
 }
 # methods of enums that the model has as functions of the same meaning (their Rust definitions are translated and bridged too)
 ENUM_METHODS = {("MacroblockType", "is_inter"): "mb_is_inter", ("MacroblockType", "is_intra"): "mb_is_intra",
@@ -52,8 +53,9 @@ ENUM_METHODS = {("MacroblockType", "is_inter"): "mb_is_inter", ("MacroblockType"
 # VLC tables: the model's table of the same (lower-case) name, regenerated and bridged in BridgeTables; type of a leaf
 VLC_TABLES = {"MCBPC_I_TABLE": ("mcbpc_i_table", "BlockPatternEntry"), "MCBPC_P_TABLE": ("mcbpc_p_table", "BlockPatternEntry"),
               "MODB_TABLE": ("modb_table", ("tup", ("bool", "bool"))), "CBPY_TABLE_INTRA": ("cbpy_table_intra", ("opt", ("list", "bool"))),
-              "MVD_TABLE": ("mvd_table", ("opt", "HalfPel"))}
-COQ_OF_TYPE = {"MacroblockType": "mbtype", "BlockPatternEntry": "bpe", "Macroblock": "macroblock", "HalfPel": "Z", "MotionVector": "(Z * Z)", "CodedBlockPattern": "cbp",
+              "MVD_TABLE": ("mvd_table", ("opt", "HalfPel")), "TCOEF_TABLE": ("tcoef_table", ("opt", "ShortTCoefficient"))}
+COQ_OF_TYPE = {"TCoefficient": "tcoef", "Block": "block", "ShortTCoefficient": "short_tcoef", "IntraDc": "Z",
+               "MacroblockType": "mbtype", "BlockPatternEntry": "bpe", "Macroblock": "macroblock", "HalfPel": "Z", "MotionVector": "(Z * Z)", "CodedBlockPattern": "cbp",
                "SourceFormat": "source_format", "PictureTypeCode": "ptype_code", "PixelAspectRatio": "par_t",
                "MotionVectorRange": "mvrange", "BPictureQuantizer": "Z"}
 
@@ -71,6 +73,14 @@ class TVar:
         return "?T%d=%r" % (self.n, self.ty)
 
 
+class EVar(TVar):
+    """the element type of a Vec created empty, fixed by the first push"""
+    any = True
+
+    def __init__(self):
+        self.n, self.ty = -1, None
+
+
 def resolve(t):
     while isinstance(t, TVar) and t.ty is not None:
         t = t.ty
@@ -81,7 +91,7 @@ class Defs:
     """struct fields, enum payloads and bit-flag constants read from the Rust sources"""
     def __init__(self, repo):
         self.structs, self.payload, self.flagvals = {}, {}, {}
-        for rel in ("h263/src/types.rs", "h263/src/parser/picture.rs", "h263/src/decoder/types.rs", "h263/src/parser/macroblock.rs"):
+        for rel in ("h263/src/types.rs", "h263/src/parser/picture.rs", "h263/src/decoder/types.rs", "h263/src/parser/macroblock.rs", "h263/src/parser/block.rs"):
             try:
                 toks = Source(repo, rel).toks
             except Untranslatable:
@@ -271,6 +281,8 @@ class PEmitter:
                     tgt = tgt[1]
                 if tgt[0] == "var":
                     acc.add(tgt[1])
+            if node and node[0] == "mcall" and node[2] == "push" and node[1][0] == "var":
+                acc.add(node[1][1])
             if node and node[0] == "var" and node[1] in ("reader", "_reader"):
                 acc.add("$reader")
             for x in node:
@@ -458,6 +470,15 @@ class PEmitter:
 
     def binary(self, e, env, k, want):
         op, l, r = e[1], e[2], e[3]
+        if op in ("==", "!=") and r[0] == "call" and r[1] == ("var", "Some") and len(r[2]) == 1 and r[2][0][0] == "int":
+            lit = r[2][0][1]
+            def cmp(a, t, env):
+                t = resolve(t)
+                if not (isinstance(t, tuple) and t[0] == "opt" and is_int(resolve(t[1]))):
+                    raise Untranslatable("comparison of %r with Some(literal)" % (t,))
+                c = "(match %s with Some x_ => x_ =? %s | None => false end)" % (a, zlit(lit))
+                return k(c if op == "==" else "(negb %s)" % c, "bool", env)
+            return self.expr(l, env, cmp)
         if op in ("&&", "||"):
             if self.has_return(r):
                 raise Untranslatable("`?` or return on the right of %s" % op)
@@ -533,6 +554,9 @@ class PEmitter:
             return ("n", args[0], lambda n: "skip_bits %s %s" % (n, r), "unit", "r")
         if name == "recognize_start_code" and len(args) == 1:
             return ("n", args[0], lambda n: "recognize_start_code %s %s" % (n, r), ("opt", "u32"), "v")
+        if name == "read_signed_bits" and len(args) == 1:
+            t = norm(fish[0]) if fish else (resolve(want) if (is_int(resolve(want)) or isinstance(resolve(want), TVar)) else self.tvar())
+            return ("n", args[0], lambda n: "read_signed_bits %s %s %s" % (self.width(t), n, r), t, "vr")
         if name == "read_umv" and not args:
             return (None, None, lambda n: "read_umv %s" % r, "HalfPel", "vr")
         if name == "read_vlc" and len(args) == 1:
@@ -607,6 +631,11 @@ class PEmitter:
             return self.expr(args[0], env, lambda a, t, env: k("(Some %s)" % a, ("opt", t), env), w[1] if isinstance(w, tuple) and w[0] == "opt" else None)
         if f[0] == "var" and f[1] in ("Ok", "Err"):
             raise Untranslatable("Result value outside return position")
+        if f[0] == "path" and f[1] == ["Vec", "new"] and not args:
+            return k("[]", ("vec", EVar()), env)
+        if f[0] == "path" and f[1] == ["IntraDc", "from_u8"] and len(args) == 1:
+            # IntraDc::from_u8 is translated and bridged as a kernel (k_intradc_from_u8 = intradc_from_u8)
+            return self.expr(args[0], env, lambda a, t, env: k("(intradc_from_u8 %s)" % a, ("opt", "IntraDc"), env), "u8")
         if f[0] == "path" and f[1] == ["HalfPel", "from"] and len(args) == 1:
             return self.expr(args[0], env, lambda a, t, env: k(a, "HalfPel", env) if resolve(t) == "HalfPel" else self.bad("HalfPel::from(%r)" % (t,)))
         if f[0] == "path" and len(f[1]) == 2:
@@ -663,6 +692,24 @@ class PEmitter:
                 return self.expr(given[order[i]], env, lambda a, t, env: go(i + 1, acc + [a], env))
             return go(0, [], env)
         name = segs[-1]
+        if name in ("TCoefficient", "Block"):
+            given = dict(fields)
+            order = {"TCoefficient": ["is_short", "run", "level"], "Block": ["intradc", "tcoef"]}[name]
+            ctor = {"TCoefficient": "mkTcoef", "Block": "mkBlock"}[name]
+            decl = dict(self.d.structs.get(name, []))
+            if set(given) != set(order) or set(decl) != set(order):
+                raise Untranslatable("fields of %s" % name)
+            def go(i, acc, env):
+                if i == len(order):
+                    return k("(%s %s)" % (ctor, " ".join(acc)), name, env)
+                ft = norm(decl[order[i]])
+                def after(a, t, env):
+                    tt = resolve(t)
+                    if is_int(ft) or isinstance(tt, TVar):
+                        self.unify(t, ft, "field %s.%s" % (name, order[i]))
+                    return go(i + 1, acc + [a], env)
+                return self.expr(given[order[i]], env, after, ft if is_int(ft) else None)
+            return go(0, [], env)
         if name == "CodedBlockPattern":
             given = dict(fields)
             order = ["codes_luma", "codes_chroma_b", "codes_chroma_r"]
@@ -738,6 +785,20 @@ class PEmitter:
                     return k("(match %s with Some %s => %s | None => %s end)" % (a, v, body, d), holder["t"], env)
                 return self.expr(dflt, env, lambda d, td, env: k("(match %s with Some %s => %s | None => %s end)" % (a, v, body, d), holder["t"], env), holder["t"])
             return self.expr(recv[1], env, after)
+        if name == "push" and len(args) == 1 and recv[0] == "var" and recv[1] in env and isinstance(resolve(env[recv[1]][1]), tuple) and resolve(env[recv[1]][1])[0] == "vec":
+            vname = recv[1]
+            old, told = env[vname]
+            def pushed(a, t, env):
+                tt = resolve(t)
+                if isinstance(tt, tuple) and tt[0] == "structval":
+                    tt = tt[1]
+                v = self.fresh(vname)
+                tv = resolve(env[vname][1])
+                if isinstance(tv[1], EVar) and tv[1].ty is None:
+                    tv[1].ty = tt
+                env2 = dict(env); env2[vname] = (v, env[vname][1])
+                return "let %s := (%s ++ [%s]) in\n  %s" % (v, env[vname][0], a, k("tt", "unit", env2))
+            return self.expr(args[0], env, pushed)
         if name == "into" and not args:
             def into(a, t, env):
                 t = resolve(t)
@@ -847,6 +908,10 @@ class PEmitter:
                 return self.if_stmt(e, env, rest)
             if e[0] == "return":
                 return self.ret(e[1], env)
+            if e[0] == "while":
+                return self.while_stmt(e, env, rest)
+            if e[0] == "mcall" and e[2] == "push":
+                return self.expr(e, env, lambda a, t, env: rest(env))
             if e[0] == "try":
                 return self.expr(e, env, lambda a, t, env: rest(env))
             raise Untranslatable("expression statement %s" % e[0])
@@ -899,12 +964,13 @@ class PEmitter:
             env2[v] = (pn, env[v][1])
         return kname, vars_, params, env2
 
-    def lift(self, kname, head_params, vars_, params, env_def, body):
+    def lift(self, kname, head_params, vars_, params, env_def, body, rt=None):
         """Record the join point `kname` (to become a top-level function of the variables it captures, its value parameters
         head_params [(name, type)] and the updated variables) and return the builder of calls to it.  Calls are markers
         until the end of the function, when the captured variables of every join point are known (resolve_lifted)."""
         full = "%s_%s" % (self.fname, kname)
-        self.lifted.append({"name": full, "head": head_params, "vars": vars_, "params": params, "env": env_def, "body": body})
+        self.lifted.append({"name": full, "head": head_params, "vars": vars_, "params": params, "env": env_def, "body": body,
+                            "rt": rt or getattr(self, "cur_rt", None)})
         def callf(values, env2):
             return "@K:%s@%s@%s@" % (full, ";;".join(values), ";;".join(env2[v][0] for v in vars_))
         return callf
@@ -950,7 +1016,9 @@ class PEmitter:
                 if t == "DecoderOption":
                     return "(%s : dec_opts)" % n
                 tt = resolve(t)
-                if tt is None or (isinstance(tt, tuple) and tt[0] == "opt" and resolve(tt[1]) is None) or isinstance(tt, TVar):
+                if tt is None:
+                    return "(%s : unit)" % n
+                if (isinstance(tt, tuple) and tt[0] == "opt" and resolve(tt[1]) is None) or isinstance(tt, TVar):
                     return n
                 return "(%s : %s)" % (n, coq_of(tt, self.defs_for_types))
             except Untranslatable:
@@ -977,7 +1045,13 @@ class PEmitter:
                  [binder(pn, e["env"][v][1]) for v, pn in zip(e["vars"], e["params"])]
             if not bl:
                 bl = ["(_ : unit)"]
-            texts[n] = "Definition %s %s : res (%s * reader) :=\n  %s.\n" % (n, " ".join(bl), rt_coq, render(e["body"]))
+            rt_n = e["rt"] or rt_coq
+            m_st = re.match(r"@STATE:(\w+)@", rt_n)
+            if m_st:
+                mutated, envb = self.loop_state[m_st.group(1)]
+                parts = [coq_of(envb[v][1], self.defs_for_types) for v in mutated]
+                rt_n = parts[0] if len(parts) == 1 else "(" + " * ".join(parts) + ")"
+            texts[n] = "Definition %s %s : res (%s * reader) :=\n  %s.\n" % (n, " ".join(bl), rt_n, render(e["body"]))
         # dependency order
         ordered, pending = [], list(texts)
         while pending:
@@ -1000,6 +1074,71 @@ class PEmitter:
         for e in self.lifted:
             e["body"] = fix(e["body"])
         return fix
+
+    def while_stmt(self, e, env, rest):
+        """`while COND { BODY }`: the body becomes a function of the loop state (the variables it assigns) and the reader; the
+        loop itself is the fuelled combinator `while_loop` of base/Checked.v with fuel = unread bits + 2 (one unit for the final test of the condition; every iteration of
+        the loops translated here reads at least one bit; running out of fuel is OutOfFuel, which no theorem accepts)."""
+        cond, body = e[1], e[2]
+        for node in self.returns_in(body):
+            if not (node[0] == "call" and node[1] == ("var", "Err")):
+                raise Untranslatable("`return` of a value inside a loop")
+        mutated = sorted(v for v in self.assigned(body, set()) if v in env and v != "$reader")
+        if not mutated:
+            raise Untranslatable("loop without state")
+        kname = self.fresh("loop")
+        params = [self.fresh(v) for v in mutated]
+        rp = self.fresh("reader")
+        envb = dict(env)
+        for v, pn in zip(mutated, params):
+            envb[v] = (pn, env[v][1])
+        envb["$reader"] = (rp, "reader")
+        tup = lambda env2: "Ok (%s)" % ", ".join([env2[v][0] for v in mutated] + [env2["$reader"][0]])
+        self.loop_state = getattr(self, "loop_state", {})
+        self.loop_state[kname] = (mutated, envb)
+        saved_rt = getattr(self, "cur_rt", None)
+        self.cur_rt = "@STATE:%s@" % kname
+        body_code = self.block(body, envb, lambda a, t, env2: tup(env2))
+        self.cur_rt = saved_rt
+        # types of the state (after the body has refined them, e.g. Vec<T>)
+        def sty(v):
+            t = resolve(envb[v][1])
+            return t
+        h = {}
+        def cap(a, t, env2):
+            h["c"] = a
+            return ""
+        self.expr(cond, envb, cap, "bool")
+        if "let" in h["c"]:
+            raise Untranslatable("loop condition with effects")
+        self.pending_loops = getattr(self, "pending_loops", [])
+        state_pat = ", ".join(params)
+        callf = self.lift(kname, [], mutated + ["$reader"], params + [rp], dict(env, **{"$reader": env["$reader"]}), body_code, rt="@STATE:%s@" % kname)
+        self.loop_state = getattr(self, "loop_state", {})
+        self.loop_state[kname] = (mutated, envb)
+        out_params = [self.fresh(v) for v in mutated]
+        r2 = self.fresh("r")
+        env3 = dict(env)
+        for v, pn in zip(mutated, out_params):
+            env3[v] = (pn, envb[v][1])
+        env3["$reader"] = (r2, "reader")
+        r = env["$reader"][0]
+        body_call = callf([], {**{v: (pn, None) for v, pn in zip(mutated, params)}, "$reader": (rp, None)})
+        return "let* (%s) := while_loop (S (S (length (rbits %s)))) (fun '(%s) => %s) (fun '(%s) %s => %s) (%s) %s in\n  %s" % (
+            ", ".join(out_params + [r2]), r, state_pat, h["c"], state_pat, rp, body_call,
+            ", ".join(env[v][0] for v in mutated), r, rest(env3))
+
+    def returns_in(self, node):
+        out = []
+        if isinstance(node, tuple):
+            if node and node[0] == "return" and node[1] is not None:
+                out.append(node[1])
+            for x in node:
+                out += self.returns_in(x)
+        elif isinstance(node, list):
+            for x in node:
+                out += self.returns_in(x)
+        return out
 
     def if_stmt(self, e, env, rest):
         c_e, thn, els = e[1], e[2], e[3]
@@ -1206,10 +1345,28 @@ class PEmitter:
                     raise Untranslatable("bindings inside an or-pattern")
                 parts.append(txt)
             return " | ".join(parts), env
+        if p[0] == "pid" and p[1] in ENUMS[ty]:
+            p = ("ppath", [ty, p[1]])          # a variant brought into scope by `use Enum::*`
+        if p[0] == "pstruct":
+            segs = p[1] if len(p[1]) == 2 else [ty] + p[1]
+            pl = self.d.payload.get((ty, segs[1]), [])
+            if not pl or not isinstance(pl[0], tuple) or [f for f, _ in pl] != [f for f, _ in p[2]]:
+                raise Untranslatable("fields of the pattern %s" % "::".join(segs))
+            p = ("pctor", segs, [q for _, q in p[2]])
+            env2, names = dict(env), []
+            for q, (fn, pt) in zip(p[2], pl):
+                if q[0] == "pid":
+                    v = self.fresh(q[1]); env2[q[1]] = (v, norm(pt)); names.append(v)
+                elif q[0] == "pwild":
+                    names.append("_")
+                else:
+                    raise Untranslatable("nested payload pattern")
+            return "(%s %s)" % (ENUMS[ty][segs[1]], " ".join(names)), env2
         if p[0] in ("ppath", "pctor"):
-            segs = p[1]
+            segs = p[1] if len(p[1]) == 2 else [ty] + p[1]
             if len(segs) != 2 or segs[0] not in (ty, "Self") or segs[1] not in ENUMS[ty]:
                 raise Untranslatable("pattern %r on %s" % (segs, ty))
+            p = (p[0], segs) + tuple(p[2:])
             ctor = ENUMS[ty][segs[1]]
             pl = self.d.payload.get((ty, segs[1]), [])
             if p[0] == "ppath":
@@ -1472,7 +1629,8 @@ def coq_of(t, defs):
     if t[0] == "mvarr":
         return "(" + " * ".join(["(Z * Z)"] * t[1]) + ")"
     if t[0] == "vec":
-        return "(list Z)"
+        el = resolve(t[1])
+        return "(list %s)" % (coq_of(el, defs) if el is not None and not isinstance(el, TVar) else "Z")
     raise Untranslatable("no Coq type for %r" % (t,))
 
 
@@ -1487,6 +1645,8 @@ def coq_param_type(t):
         return "option picture"
     if t == "Picture":
         return "picture"
+    if isinstance(t, str) and t in COQ_OF_TYPE:
+        return COQ_OF_TYPE[t]
     raise Untranslatable("parameter type %r" % (t,))
 
 
@@ -1568,8 +1728,8 @@ FILES = {"decode_cbpb": "h263/src/parser/macroblock.rs", "decode_dquant": "h263/
          "decode_motion_vector": "h263/src/parser/macroblock.rs", "decode_macroblock": "h263/src/parser/macroblock.rs"}
 
 
-MB_FUNCTIONS = ["decode_cbpb", "decode_dquant", "decode_motion_vector", "decode_macroblock", "decode_gob"]
-OTHER_FILE = {"decode_gob": "h263/src/parser/gob.rs"}
+MB_FUNCTIONS = ["decode_cbpb", "decode_dquant", "decode_motion_vector", "decode_macroblock", "decode_gob", "decode_block"]
+OTHER_FILE = {"decode_gob": "h263/src/parser/gob.rs", "decode_block": "h263/src/parser/block.rs"}
 
 
 def gen_parser(repo, status, write):
